@@ -231,6 +231,8 @@ func runNativeArgRep(c *Ctx) {
 			}
 			if bad != nil {
 				c.Bad(key, bad.pos.Pos(), "the header declares %s of %s as %s, but the native registered at %s reads args[%d] with an accessor of the %s representation without testing for it: a well-typed call reinterprets the value's bits or dereferences a nil reference", what, m.ID(), cls, c.Pos(nd.Call.Pos()), i, bad.fam)
+			} else if len(byIdx[i]) == 0 {
+				c.OKTrivial(key, nd.Call.Pos(), "no representation-assuming accessor is applied directly to this argument")
 			} else {
 				c.OK(key, nd.Call.Pos(), "%d direct accessor(s), all of a representation %s can have", len(byIdx[i]), cls)
 			}
